@@ -8,7 +8,7 @@ def check(ctx, rep):
         "R08.1 the deadline is stored once per activation, before the loop, as clock() + this scheduler's own "
         "timeout, and never between two main waits; every main wait's timeout is deadline - clock() with the "
         "same clock. R08.2 every main wait is armed. R08.3 expiry branch = EXIT automaton Live -> Tidied -> "
-        "Shut -> return False with the timeout cause recorded; nothing starts afterwards. R08.6 `timeout` is what the caller gave. R08.7 (= R07.1) the wrapper releases a slot only if it holds one, on the cancellation path too: a job cancelled while queued must not take a slot away, or the tidy at expiry never ends.")
+        "Shut -> return False with the timeout cause recorded; nothing starts afterwards. R08.6 `timeout` is what the caller gave. R08.7 (= R07.1) the wrapper releases a slot only if it holds one, on the cancellation path too: a job cancelled while queued must not take a slot away, or the tidy at expiry never ends. R08.8 the helper that records the deadline of a phase stores it on every path (None included): the shutdown phase never inherits the deadline of the run.")
     rep.declined = ["behaviour exactly at T and one loop iteration around it; clock quality"]
     rep.trusted = ["T1 empty done set iff the timeout fired"]
     runrules.deadline(ctx, rep, "R08.1", "R08.2")
@@ -17,3 +17,4 @@ def check(ctx, rep):
     shutrules.cancellation_edges(ctx, rep, "R08.5", prompt=True)
     predicates.config_verbatim(ctx, rep, "R08.6", ('timeout',))
     common.wrap_typestate(ctx, rep, "R08.7")
+    runrules.deadline_always_stored(ctx, rep, "R08.8")
